@@ -75,6 +75,8 @@ class SimTransport:
     """One end of a simulated TCP connection."""
 
     disconnecting = False
+    pull_on_register = False       # optional mode: a pull producer is resumed synchronously inside registerProducer()
+    on_write = None                # optional hook on_write(transport, data), called from inside write() once non-empty data was accepted (SyncLink; taggers)
 
     def __init__(self, sim, name="T", host=("10.0.0.1", 1001), peer=("10.0.0.2", 2002), hwm=None):
         self.sim = sim
@@ -118,6 +120,8 @@ class SimTransport:
             self.written += data
             self.writes.append(data)
             self._maybe_pause_producer()
+            if self.on_write is not None:
+                self.on_write(self, data)
 
     def writeSequence(self, seq):
         for d in list(seq):
@@ -167,8 +171,11 @@ class SimTransport:
         self.streaming = streaming
         self.producer_paused = False
         if not streaming:
-            # pull producers are asked for data by the scheduler (Link.enabled)
-            pass
+            # pull producers are asked for data by the scheduler (Link.enabled); with pull_on_register the first chunk is
+            # asked for here and now, from inside registerProducer(), as abstract.FileDescriptor and protocols.loopback do
+            if self.pull_on_register:
+                self.sim.probe("pull_inside_registerProducer")
+                producer.resumeProducing()
 
     def unregisterProducer(self):
         self.producer = None
@@ -347,3 +354,105 @@ class Link:
         r = error.ConnectionDone() if clean else error.ConnectionLost()
         first.lose(Failure(r))
         second.lose(Failure(r))
+
+
+class SyncLink(Link):
+    """A Link whose transports hand written bytes to the peer's protocol AT ONCE, from inside write() - the behaviour of an
+    in-memory pipe, a loopback pair, an in-process relay or a test double - so that deliveries NEST: the peer's dataReceived,
+    and whatever its application does in reaction (writing back included), runs while the writer is still inside its own
+    callback.  (Link, the default, never delivers inside write().)
+
+    The wire stays a FIFO per direction: bytes written towards a protocol that is in the middle of a dataReceived call are
+    queued behind what is in flight and handed over when that call has returned.  The one exception (`reenter`): when the
+    protocol is known to have consumed the whole piece it is working on - so handing over the next bytes now keeps the
+    stream order - they are handed over immediately, re-entering dataReceived of the SAME protocol (what a pipe that simply
+    calls peer.dataReceived from write() does whenever the peer reacts to the end of what it was given).  `reenter` is
+    True (default: the piece is a single byte, of which nothing can be left), False (never), or a callable
+    reenter(side, start, end) -> bool told the offsets of the piece in the stream towards `side` (for users who know where
+    in a piece their protocol can call out).
+
+    `pieces`: "whole" (all that is in flight in one call), "bytewise" (single bytes) or "mixed" (a tape-chosen size from `amounts` per
+    piece).  While `held` is set the link is corked: writes queue up and release() hands them over in one go (so that one piece can hold
+    what several writes produced).  Only the data path is synchronous; close / half-close events still go through enabled()/do().  A subclass may
+    override _deliver() (e.g. to catch and log what the protocol raises, as log.callWithLogger does) and _on_write()."""
+
+    def __init__(self, sim, a_proto, b_proto, pieces="mixed", amounts=(1, 2, 3, 5, 8, 17, 64, 1000, None), reenter=True):
+        Link.__init__(self, sim, a_proto, b_proto)
+        assert pieces in ("whole", "bytewise", "mixed"), pieces
+        self.pieces = pieces
+        self.amounts = amounts
+        self.reenter = reenter
+        self.active = {"A": [], "B": []}     # (start, end) offsets of the pieces that side's protocol is inside dataReceived with (innermost last)
+        self.frozen = False                  # set to stop every further delivery (bytes stay in flight)
+        self.held = False                    # while set, written bytes only queue up (a corked pipe); release() hands them over
+        self.a.on_write = self.b.on_write = self._on_write
+
+    def _on_write(self, t, data):
+        other = t.peer_t
+        chunk = bytes(t.out)
+        del t.out[:]
+        if not other.disconnected:
+            self.flight[other.name] += chunk
+        t._drained()
+        if self.held:
+            self.sim.probe("sync_write_held_back")
+            return
+        self.pump(other.name)
+
+    def release(self):
+        """Uncork: hand over, synchronously, everything that queued up while `held` was set."""
+        self.held = False
+        return self.run()
+
+    def _piece(self, avail):
+        if self.pieces == "whole":
+            return avail
+        if self.pieces == "bytewise":
+            return 1
+        amount = self.sim.draw_choice(list(self.amounts)[::-1], "amount")    # index 0 = everything
+        if amount is None:
+            return avail
+        self.sim.fault("segmentation")
+        return max(1, min(amount, avail))
+
+    def _may_reenter(self, name, start, end):
+        if callable(self.reenter):
+            return bool(self.reenter(name, start, end))
+        return bool(self.reenter) and end - start == 1
+
+    def pump(self, name):
+        """Hand what is in flight towards `name` to its protocol, piece by piece (no-op while that protocol is busy with a piece
+        of which something may be unconsumed: the loop that is handing that piece over goes on afterwards)."""
+        t = self._side(name)
+        act = self.active[name]
+        q = self.flight[name]
+        if act and q:
+            if not self._may_reenter(name, *act[-1]):
+                self.sim.probe("sync_write_queued_behind_running_delivery")
+                return
+            self.sim.probe("sync_same_protocol_reentered")
+        while q and not self.frozen and not self.held and t.reading and not t.disconnected:
+            n = self._piece(len(q))
+            chunk = bytes(q[:n])
+            del q[:n]
+            start = len(self.delivered[name])
+            self.delivered[name] += chunk
+            if self.active[t.peer_t.name]:
+                self.sim.probe("sync_delivery_nested_in_peer_delivery")
+            act.append((start, start + n))
+            try:
+                self._deliver(t, chunk)
+            finally:
+                act.pop()
+
+    def _deliver(self, t, chunk):
+        t.protocol.dataReceived(chunk)
+
+    def run(self, max_steps=100000, amounts=None):
+        """Hand over whatever was left in flight (after a delivery raised)."""
+        n = 0
+        while n < max_steps and not self.frozen and not self.held and (self.flight["A"] or self.flight["B"]):
+            self.pump("A")
+            self.pump("B")
+            n += 1
+        return n
